@@ -139,6 +139,9 @@ def norm_guard(g):
 def atom_vars(a):
     k = a[0]
     out = set()
+    if k == "sym" and isinstance(a[1], str) and "«" in a[1]:
+        import re as _re
+        return set(_re.findall("«([^»]*)»", a[1]))
     if k in ("leaf", "acc"):
         for x in a[2:]:
             if isinstance(x, str):
@@ -170,6 +173,8 @@ def atom_vars(a):
 
 def atom_subst(a, m):
     k = a[0]
+    if k == "sym" and isinstance(a[1], str) and "«" in a[1]:
+        return ("sym", cond_subst(a[1], m))
     if k in ("leaf", "acc"):
         return (k, a[1]) + tuple(m.get(x, x) if isinstance(x, str) else x for x in a[2:])
     if k == "fn":
